@@ -62,7 +62,7 @@ var vroot string
 var verifUploadConfig = telemetry.UploadConfig{
 	GOOS:       []string{"linux", "darwin"},
 	GOARCH:     []string{"amd64", "arm64"},
-	GoVersion:  []string{"go1.20", "go1.20.1", "go1.21.0"},
+	GoVersion:  []string{"go1.20", "go1.20.1", "go1.21.0", "go1.22.3"}, // go1.22.3: a Go version no program lists as ITS version
 	SampleRate: 1,
 	Programs: []*telemetry.ProgramConfig{
 		{Name: "golang.org/x/tools/gopls", Versions: []string{"v0.10.1", "v0.11.0"},
@@ -291,7 +291,14 @@ func confusedProgram() (*telemetry.ProgramReport, string) {
 		}
 		return Pick(vrnd, forGo)
 	}
-	switch vrnd.Intn(10) {
+	switch vrnd.Intn(11) {
+	case 10: // (k) a program Version taken from another table: the global GoVersion list, or the other program's versions
+		if gopls {
+			p.Version = Pick(vrnd, []string{"go1.22.3", "go1.20", "go1.21.0"})
+		} else {
+			p.Version = Pick(vrnd, []string{"go1.22.3", "go1.22.3", "v0.10.1"}) // cmd/go: a configured Go version, not a configured version of cmd/go
+		}
+		return p, "version-from-another-table"
 	case 9: // (j) the configuration's own (collapsed) spelling of a counter, or a piece of it, used as the counter name
 		p.Counters[pick([]string{"single:{only}", "single:", "single", "single:{only", "trail:{a,}", "trail:a,", "editor:{emacs,vim,vscode,other}", "editor:{vim}"},
 			[]string{"go/build/flag:{buildmode}", "go/build/flag:", "go/build/flag", "empty:{}", "empty", "open:{x,y", "open:x,y", "flag:{a,b}", "flag:{a}"})] = 1
